@@ -49,6 +49,15 @@ func vfBatch(list []any) (changeSet, []rtnetlink.Message, []any) {
 				n = int(v)
 			}
 			cs[ifi] = append(cs[ifi], Change(n))
+			// messages that carry no link-state change are skipped one by one, whatever follows them in the batch
+			switch len(cs[ifi]) % 4 {
+			case 0:
+				msgs = append(msgs, &rtnetlink.LinkMessage{})
+			case 1:
+				msgs = append(msgs, &rtnetlink.LinkMessage{Attributes: &rtnetlink.LinkAttributes{Name: ifi, OperationalState: rtnetlink.OperationalState(99)}})
+			case 2:
+				msgs = append(msgs, &rtnetlink.AddressMessage{})
+			}
 			msgs = append(msgs, &rtnetlink.LinkMessage{Attributes: &rtnetlink.LinkAttributes{Name: ifi, OperationalState: vfOper[Change(n)]}})
 			chs = append(chs, n)
 		}
